@@ -18,7 +18,7 @@ run_demo() { # $1 = build dir.  Conventions seen: run_demo.sh <build> [repo]; bu
   if [ -z "$exe" ]; then echo "no demo exe"; return 99; fi
   (cd $O && timeout 2400 $exe > $O/demo_run.log 2>&1); return $?
 }
-build() { cmake -G Ninja -S $R -B $B -DCMAKE_BUILD_TYPE=Release > $B.log 2>&1 && cmake --build $B -j 8 >> $B.log 2>&1; }
+build() { cmake -G Ninja -S $R -B $B -DCMAKE_BUILD_TYPE=Release -DSQISIGN_BUILD_TYPE=${BUILD_TYPE:-ref} > $B.log 2>&1 && cmake --build $B -j 8 >> $B.log 2>&1; }
 mkdir -p $B
 git apply $O/patch.diff && build || { echo "build with change failed"; git checkout -q -- .; exit 3; }
 run_demo $B; WITH=$?
